@@ -68,6 +68,8 @@ pub enum Op {
     Get { k: u64 },
     GetMut { k: u64, write: Option<u32> },
     GetTtl { k: u64 },
+    /// look up, keep the ValueRef while the clock advances by dt, read its ttl again
+    GetHold { k: u64, dt: i64 },
     UpdateMaxCost { m: i64 },
     /// `pre`: insert-arm steps the processor takes before the clear arm, should clear() wait
     Clear { pre: usize },
@@ -1700,6 +1702,49 @@ impl<'a> Interp<'a> {
         }
     }
 
+    fn op_get_hold(&mut self, k: u64, dt: i64) {
+        let (index, _) = self.key(k);
+        let me = self.model_lookup(k);
+        self.note_lookup_feats(k, &me);
+        let t0 = self.m.now;
+        let t1 = t0 + dt.max(0);
+        let got = self.sut.get_hold(k, &|| clock::set_thread(Some(t1)));
+        self.lookups_since_clear += 1;
+        self.tr(|| format!("get(k{}) held over +{}ns = {:?}", k, dt, got));
+        if let Some((v, _, _)) = got {
+            self.check_returned("lookup", k, v);
+        }
+        if !self.m.synced {
+            self.m.now = t1;
+            clock::set_thread(Some(t1));
+            return;
+        }
+        let hit = me.is_some();
+        if self.cfg.metrics {
+            if hit {
+                self.m.m.hits += 1;
+            } else {
+                self.m.m.misses += 1;
+            }
+        }
+        self.ring_push(index, hit);
+        // the lookup itself happened at t0; the clock moved while the reference was held
+        self.compare_lookup("lookup", k, got.map(|g| g.0), got.map(|g| g.1), &me, true);
+        self.m.now = t1;
+        clock::set_thread(Some(t1));
+        if let (Some((_, _, after)), Some(e)) = (got, me.as_ref()) {
+            // while the reference is held the remaining time keeps counting down and stops at zero
+            let want = if e.ttl == 0 { Duration::MAX } else { dur((e.ttl - (t1 - e.created)).max(0)) };
+            if after != want {
+                self.fail(
+                    "ttl_value",
+                    &["C03", "C19"],
+                    format!("key {}: ValueRef::ttl() {}ns after the lookup reports {:?}, expected {:?}", k, dt, after, want),
+                );
+            }
+        }
+    }
+
     fn op_get_ttl(&mut self, k: u64) {
         self.note_collide(k);
         let me = self.model_lookup(k);
@@ -2154,6 +2199,7 @@ impl<'a> Interp<'a> {
             Op::Get { k } => self.op_get(*k % self.nkeys(), false, None),
             Op::GetMut { k, write } => self.op_get(*k % self.nkeys(), true, *write),
             Op::GetTtl { k } => self.op_get_ttl(*k % self.nkeys()),
+            Op::GetHold { k, dt } => self.op_get_hold(*k % self.nkeys(), *dt),
             Op::UpdateMaxCost { m } => self.op_update_max_cost(*m),
             Op::Clear { pre } => self.op_clear(*pre),
             Op::Wait => self.op_wait(),
@@ -2184,7 +2230,7 @@ impl<'a> Interp<'a> {
         }
         let is_client = matches!(
             op,
-            Op::Insert { .. } | Op::InsertIfPresent { .. } | Op::Remove { .. } | Op::Get { .. } | Op::GetMut { .. } | Op::UpdateMaxCost { .. } | Op::Clear { .. }
+            Op::Insert { .. } | Op::InsertIfPresent { .. } | Op::Remove { .. } | Op::Get { .. } | Op::GetHold { .. } | Op::GetMut { .. } | Op::UpdateMaxCost { .. } | Op::Clear { .. }
         );
         if quiesce && is_client {
             self.drain(false);
